@@ -2,6 +2,7 @@ import Driver.Util
 import CLModel.Model.BigNum
 import CLModel.Model.Scalar
 import CLModel.Model.Curve
+import CLModel.Model.Codec
 import CLModel.Model.Wire
 /-! driver operations for C15 / C16: `decode` (one primitive, `impl*` and `spec*` decoders),
 `wire_check` (a document of a public type against the layout table, leaves decoded),
@@ -34,11 +35,7 @@ def mk (impl spec : String) (extra : List (String × Json)) : Json :=
 /-! ### integers -/
 
 def bnFrom (backend form : String) (s : List Char) : Outcome Int :=
-  match backend, form with
-  | "rust", "hex" => BN.Rust.fromHex s
-  | "rust", _ => BN.Rust.fromDec s
-  | _, "hex" => BN.Ossl.fromHex s
-  | _, _ => BN.Ossl.fromDec s
+  Codec.implBnText (if backend = "rust" then .rust else .openssl) (if form = "hex" then 16 else 10) s
 
 def bnText (backend form : String) (z : Int) : String :=
   let t := match backend, form with
@@ -100,7 +97,7 @@ def decodePoint (ty form input : String) : Except String Json := do
       let i := implG1Bytes bs
       let s := specG1Bytes bs
       let ex := match i with | .ok v => [("canon", (hexOfBytes v.g1Bytes : Json)), ("bytes", (hexOfBytes v.g1Bytes : Json)), ("inf", (toJson (v == AffPt.inf)))] | _ => []
-      let ex2 := match s with | .ok v => [("spec_bytes", (hexOfBytes v.g1Bytes : Json))] | _ => []
+      let ex2 := match s with | .ok v => [("spec_bytes", (hexOfBytes v.g1Bytes : Json)), ("spec_inf", toJson (v == AffPt.inf))] | _ => []
       pure (mk i.tag s.tag (ex ++ ex2))
     | "Pair" =>
       let i := implPairBytes bs
@@ -112,7 +109,7 @@ def decodePoint (ty form input : String) : Except String Json := do
       let i := implG2Bytes bs
       let s := specG2Bytes (ty = "PointG2Inf") bs
       let ex := match i with | .ok v => [("canon", (hexOfBytes v.g2Bytes : Json)), ("bytes", (hexOfBytes v.g2Bytes : Json)), ("inf", (toJson (v == AffPt.inf)))] | _ => []
-      let ex2 := match s with | .ok v => [("spec_bytes", (hexOfBytes v.g2Bytes : Json))] | _ => []
+      let ex2 := match s with | .ok v => [("spec_bytes", (hexOfBytes v.g2Bytes : Json)), ("spec_inf", toJson (v == AffPt.inf))] | _ => []
       pure (mk i.tag s.tag (ex ++ ex2))
   else
     let cs := input.toList
@@ -121,7 +118,7 @@ def decodePoint (ty form input : String) : Except String Json := do
       let i := implG1Text false cs
       let s := specG1Text cs
       let ex := match i with | .ok t => [("canon", (String.ofList (rawText t.raw) : Json)), ("bytes", (hexOfBytes (g1TextBytes t) : Json))] | _ => []
-      let ex2 := match s with | .ok t => [("spec_bytes", (hexOfBytes (specG1TextBytes t) : Json))] | _ => []
+      let ex2 := match s with | .ok t => [("spec_bytes", (hexOfBytes (specG1TextBytes t) : Json)), ("spec_inf", toJson (g1PtOfRaw t.raw).z.isZero)] | _ => []
       pure (mk i.tag s.tag (ex ++ ex2))
     | "Pair" =>
       let i := implPairText cs
@@ -134,8 +131,53 @@ def decodePoint (ty form input : String) : Except String Json := do
       let i := implG2Text inf cs
       let s := specG2Text inf cs
       let ex := match i with | .ok t => [("canon", (String.ofList (rawText t.raw) : Json)), ("bytes", (hexOfBytes (g2TextBytes t) : Json))] | _ => []
-      let ex2 := match s with | .ok t => [("spec_bytes", (hexOfBytes (specG2TextBytes t) : Json))] | _ => []
+      let ex2 := match s with | .ok t => [("spec_bytes", (hexOfBytes (specG2TextBytes t) : Json)), ("spec_inf", toJson (g2PtOfRaw t.raw).z.isZero)] | _ => []
       pure (mk i.tag s.tag (ex ++ ex2))
+
+/-! ### why the specification refuses (names the class of a finding) -/
+
+open CL.Curve in
+def whyPoint (ty form input : String) : String :=
+  if form = "bytes" then
+    match bytesOfHex input with
+    | .error _ => "bad_case"
+    | .ok bs =>
+      if ty = "Pair" then
+        if bs.length ≠ 512 then "length"
+        else if ((List.range 12).map fun k => beNat (slice bs (32 * k) 32)).any (· ≥ p) then "coordinate_not_reduced"
+        else if slice bs 384 128 ≠ List.replicate 128 0 then "padding_not_zero"
+        else match implPairBytes bs with
+          | .ok g => if g.isZero then "zero_element" else "not_of_order_r"
+          | _ => "?"
+      else if ty = "PointG1" then
+        if bs.length ≠ 128 then "length"
+        else if bs = g1IdBytes then "identity_not_allowed"
+        else if bs.headD 0 ≠ 4 then "tag_not_04"
+        else if beNat (slice bs 1 32) ≥ p ∨ beNat (slice bs 33 32) ≥ p then "coordinate_not_reduced"
+        else if slice bs 65 63 ≠ List.replicate 63 0 then "padding_not_zero"
+        else if !(onCurveAff B1 ⟨beNat (slice bs 1 32), 0⟩ ⟨beNat (slice bs 33 32), 0⟩) then "not_on_curve"
+        else "not_in_subgroup"
+      else
+        if bs.length ≠ 128 then "length"
+        else if ((List.range 4).map fun k => beNat (slice bs (32 * k) 32)).any (· ≥ p) then "coordinate_not_reduced"
+        else if bs = g2IdBytes then "identity_not_allowed"
+        else
+          let x : F2 := ⟨beNat (slice bs 0 32), beNat (slice bs 32 32)⟩
+          let y : F2 := ⟨beNat (slice bs 64 32), beNat (slice bs 96 32)⟩
+          if !(onCurveAff B2 x y) then "not_on_curve" else "not_in_subgroup"
+  else
+    let n := if ty = "PointG1" then 3 else if ty = "Pair" then 12 else 6
+    match parseComponents n (splitWs input.toList) with
+    | none => "syntax"
+    | some cs =>
+      if !(cs.all specDomain) then "residue_too_long"
+      else if ty = "Pair" then (if (f12OfRaw cs).isZero then "zero_element" else "not_of_order_r")
+      else
+        let P := if ty = "PointG1" then g1PtOfRaw cs else g2PtOfRaw cs
+        let B := if ty = "PointG1" then B1 else B2
+        if P.z.isZero then
+          (if P.x.isZero && !P.y.isZero then "identity_not_allowed" else "degenerate_projective_triple")
+        else if !(onCurveProj B P) then "not_on_curve" else "not_in_subgroup"
 
 def decodeOp (inp : Json) : Except String Json := do
   let ty ← getStr inp "type"
@@ -145,7 +187,11 @@ def decodeOp (inp : Json) : Except String Json := do
   match ty with
   | "BigNumber" => decodeBn backend form input
   | "GroupOrderElement" => decodeSc form input
-  | "PointG1" | "PointG2" | "PointG2Inf" | "Pair" => decodePoint ty form input
+  | "PointG1" | "PointG2" | "PointG2Inf" | "Pair" => do
+    let out ← decodePoint ty form input
+    if (out.getObjValAs? String "spec").toOption = some "err" then
+      pure (out.setObjVal! "spec_why" (whyPoint ty form input))
+    else pure out
   | _ => throw s!"unknown primitive {ty}"
 
 /-! ### wire_check -/
